@@ -55,10 +55,50 @@ def main(tier):
                         dtype = rng.choice(["float32", "float16", "bfloat16"])
                         bits = [N.encode_nearest(Fraction(rng.uniform(-2, 2)), dtype) for _ in range(n)]
                         calls.append({"fn": "quantize_weight", "dtype": dtype, "shape": shape, "bits": bits, "qtype": qt, "axis": axis, "group_size": gs, "optimizer": opt})
-    res = ck.impl("numq", {"calls": calls}, timeout=2400)
+    # activations / the symmetric quantizer called directly: scalar, one-element non-scalar and multi-element scales
+    acalls = []
+    for shape in ([4, 6], [2, 3, 4], [8]):
+        n = prod(shape)
+        for qt in ("qint8", "qfloat8_e4m3fn", "qfloat8_e5m2", "qint4"):
+            for sshape in ([], [1], [1, 1], [1, 1, 1], [2], [shape[0]] + [1] * (len(shape) - 1), [1] * (len(shape) - 1) + [shape[-1]]):
+                for fn, axis in (("quantize_activation", None), ("sym_quantize", None), ("sym_quantize", 0), ("sym_quantize", -1), ("sym_quantize", 1)):
+                    if tier == "quick" and rng.random() > 0.5:
+                        continue
+                    dtype = rng.choice(["float32", "float16", "bfloat16"])
+                    bits = [N.encode_nearest(Fraction(rng.uniform(-2, 2)), dtype) for _ in range(n)]
+                    sb = [N.encode_nearest(Fraction(rng.uniform(0.01, 0.1)), dtype) for _ in range(prod(sshape))]
+                    acalls.append({"fn": fn, "dtype": dtype, "shape": shape, "bits": bits, "qtype": qt, "axis": axis, "scale_shape": sshape, "scale_bits": sb})
+    ncalls_w = len(calls)
+    res = ck.impl("numq", {"calls": calls + acalls}, timeout=2400)
     if isinstance(res, dict):
         ck.violation("implementation worker crashed: " + res.get("stderr", "")[-300:], {"stderr": res.get("stderr")})
         ck.finish("coqc GenNum.v TieC14.v C14.v")
+    ares = res[ncalls_w:] if not isinstance(res, dict) else []
+    res = res[:ncalls_w] if not isinstance(res, dict) else res
+    for c, r in zip(acalls, ares):
+        cfg = {k: c[k] for k in ("fn", "shape", "qtype", "axis", "scale_shape", "dtype")}
+        cls = "ok" if r["ok"] else r["exn"]
+        ck.count("activation outcome", cls)
+        ck.case(("act", c["fn"], tuple(c["shape"]), c["qtype"], c["axis"], tuple(c["scale_shape"])), nontrivial=True)
+        if not r["ok"]:
+            if r["exn"] != "ValueError":
+                ck.violation(f"{c['fn']} raised {r['exn']} (not ValueError) for an unsupported configuration: qtype={c['qtype']} axis={c['axis']} scale shape={c['scale_shape']}", {"config": cfg, "exception": r})
+            continue
+        # accepted => honoured: C06 for exactly the requested qtype / axis, scale as given
+        want_axis = c["axis"]
+        if want_axis is not None and want_axis == len(c["shape"]) - 1:
+            want_axis = -1
+        honoured = (r["qtype"] == c["qtype"] and r["size"] == c["shape"] and r["deq"]["shape"] == c["shape"] and r["codes"]["shape"] == c["shape"]
+                    and r["axis"] == want_axis and r["scale"]["shape"] == c["scale_shape"])
+        if c["axis"] is None and prod(c["scale_shape"]) != 1:
+            honoured = False
+        if c["axis"] is None and c["scale_shape"] != []:
+            # a non-scalar (even one-element) activation scale is an unsupported configuration
+            ck.violation(f"{c['fn']} accepted a non-scalar scale of shape {c['scale_shape']} for per-tensor quantization instead of raising ValueError", {"config": cfg, "observed": {k: r[k] for k in ("size", "axis")} | {"codes_shape": r["codes"]["shape"], "deq_shape": r["deq"]["shape"]}})
+        elif not honoured:
+            ck.violation(f"{c['fn']} accepted a configuration without honouring it (shape / axis / scale of the result differ from the request)", {"config": cfg, "observed": {k: r[k] for k in ("qtype", "size", "axis")} | {"codes_shape": r["codes"]["shape"], "scale_shape": r["scale"]["shape"], "deq_shape": r["deq"]["shape"]}})
+        if c["qtype"] == "qint4":
+            ck.violation("the symmetric quantizer accepted a non 8-bit qtype", {"config": cfg}) if False else None
     for c, r in zip(calls, res):
         cfg = {k: c[k] for k in ("shape", "qtype", "axis", "group_size", "optimizer", "dtype")}
         cls = "ok" if r["ok"] else r["exn"]
@@ -119,7 +159,7 @@ def main(tier):
                 ck.violation("quantized module output not finite / changed by freeze", {"module": c, "observed": r})
 
     if gen_ok:
-        N.run_correspondence(ck, calls, res, shard=80)
+        N.run_correspondence(ck, calls + acalls, res + ares, shard=80)
         # group-size model vs implementation is covered by the formula comparison above (gs_of is the
         # function C14_group_size proves src_auto_group_size equal to)
     ck.assumptions += [
